@@ -802,13 +802,13 @@ def _module_sigs(tree):
     return dict((k, v[0]) for k, v in seen.items() if len(v) == 1 and v[0] is not None and not (k.startswith('__') and k.endswith('__')))
 
 
-def normalise(tree):
+def normalise(tree, keep_count=()):
     """Apply the N rules to every outermost function of the module until nothing changes (module/class level statements are
     left alone).  One rule can enable another (an early exit turned into an else arm makes the test swappable), so the pass is
     repeated to a fixed point: the canonical form must not depend on how often the front-end ran."""
     prev = None
     for _ in range(4):
-        _normalise_once(tree)
+        _normalise_once(tree, keep_count)
         cur = ast.dump(tree)
         if cur == prev:
             break
@@ -835,9 +835,115 @@ def _strip_hints(tree):
     H().visit(tree)
 
 
-def _normalise_once(tree):
+def _count_loops(fn):
+    """N42: for X in itertools.count(A, S): BODY  ->  X = A; while True: BODY; X += S     (no continue that belongs to this loop)"""
+    def own_continue(stmts):
+        for st in stmts:
+            if isinstance(st, ast.Continue):
+                return True
+            if isinstance(st, (ast.For, ast.While, ast.FunctionDef, ast.ClassDef)):
+                continue
+            for fld in ('body', 'orelse', 'finalbody'):
+                b = getattr(st, fld, None)
+                if isinstance(b, list) and b and isinstance(b[0], ast.stmt) and own_continue(b):
+                    return True
+            for h in getattr(st, 'handlers', []) or []:
+                if own_continue(h.body):
+                    return True
+        return False
+
+    def rewrite(stmts):
+        out = []
+        for st in stmts:
+            for fld in ('body', 'orelse', 'finalbody'):
+                b = getattr(st, fld, None)
+                if isinstance(b, list) and b and isinstance(b[0], ast.stmt) and not isinstance(st, (ast.FunctionDef, ast.ClassDef)):
+                    setattr(st, fld, rewrite(b))
+            for h in getattr(st, 'handlers', []) or []:
+                h.body = rewrite(h.body)
+            it = st.iter if isinstance(st, ast.For) else None
+            if it is not None and isinstance(it, ast.Call) and not it.keywords and len(it.args) <= 2 and isinstance(st.target, ast.Name) and not st.orelse and \
+                    ((isinstance(it.func, ast.Attribute) and it.func.attr == 'count' and isinstance(it.func.value, ast.Name) and it.func.value.id == 'itertools') or
+                     (isinstance(it.func, ast.Name) and it.func.id == 'count')) and not own_continue(st.body) and \
+                    all(isinstance(a, (ast.Name, ast.Constant)) for a in it.args[1:]):
+                x = st.target.id
+                start = it.args[0] if it.args else ast.Constant(value=0)
+                step = it.args[1] if len(it.args) > 1 else ast.Constant(value=1)
+                out.append(ast.copy_location(ast.Assign(targets=[ast.Name(id=x, ctx=ast.Store())], value=start), st))
+                loop = ast.While(test=ast.Constant(value=True), orelse=[],
+                                 body=st.body + [ast.AugAssign(target=ast.Name(id=x, ctx=ast.Store()), op=ast.Add(), value=step)])
+                out.append(ast.copy_location(loop, st))
+                continue
+            out.append(st)
+        return out
+    fn.body = rewrite(fn.body)
+
+
+def _coalesce_copies(fn):
+    """N43: Y = X (two plain locals, outside any loop), Y unseen before, X never used after  ->  Y is X: the copy goes and Y is
+    spelled X from there on (`first = buckets[h]; if first < lo: return; idx = first; while ...: idx += 1`)"""
+    order = {}
+    nested = set()
+
+    def dfs(n, innested):
+        order[id(n)] = len(order)
+        for c in ast.iter_child_nodes(n):
+            inn = innested or (isinstance(c, (ast.FunctionDef, ast.AsyncFunctionDef, ast.Lambda, ast.ClassDef)))
+            if inn and isinstance(c, ast.Name):
+                nested.add(c.id)
+            dfs(c, inn)
+    dfs(fn, False)
+    names = [n for n in ast.walk(fn) if isinstance(n, ast.Name)]
+    params = set(a.arg for a in fn.args.args + fn.args.kwonlyargs + fn.args.posonlyargs)
+    stored = set(n.id for n in names if isinstance(n.ctx, ast.Store)) | params
+    declared = set(x for n in ast.walk(fn) if isinstance(n, (ast.Global, ast.Nonlocal)) for x in n.names)
+
+    def blocks(stmts, inloop):
+        yield stmts, inloop
+        for st in stmts:
+            if isinstance(st, (ast.FunctionDef, ast.ClassDef)):
+                continue
+            for fld in ('body', 'orelse', 'finalbody'):
+                b = getattr(st, fld, None)
+                if isinstance(b, list) and b and isinstance(b[0], ast.stmt):
+                    for r in blocks(b, inloop or isinstance(st, (ast.For, ast.While))):
+                        yield r
+            for h in getattr(st, 'handlers', []) or []:
+                for r in blocks(h.body, inloop):
+                    yield r
+    for stmts, inloop in list(blocks(fn.body, False)):
+        if inloop:
+            continue
+        for i, st in enumerate(stmts):
+            if not (isinstance(st, ast.Assign) and len(st.targets) == 1 and isinstance(st.targets[0], ast.Name) and isinstance(st.value, ast.Name)):
+                continue
+            y, x = st.targets[0].id, st.value.id
+            if x == y or x not in stored or {x, y} & (nested | declared) or y in params:
+                continue
+            lo, hi = order[id(st)], max(order[id(n)] for n in ast.walk(st) if not isinstance(n, (ast.expr_context, ast.operator)))    # (context nodes are shared singletons)
+            if any(n.id == y and order[id(n)] < lo for n in names) or any(n.id == x and order[id(n)] > hi for n in names):
+                continue
+            # the copy dominates every other use of Y: they all sit in the statements that follow it in its own block
+            follow = set(id(n) for r in stmts[i + 1:] for n in ast.walk(r))
+            if any(n.id == y and order[id(n)] > hi and id(n) not in follow for n in names):
+                continue
+            for n in names:
+                if n.id == y and order[id(n)] > hi:
+                    n.id = x
+            stmts[i] = ast.copy_location(ast.Pass(), st)
+            return True
+    return False
+
+
+def _normalise_once(tree, keep_count=()):
     _strip_hints(tree)
     msigs = _module_sigs(tree)
+    for qual, fn in outer_functions(tree):
+        if qual not in keep_count:       # towards the reference spelling: a function that is written with count() there keeps it
+            _count_loops(fn)
+        for _ in range(4):
+            if not _coalesce_copies(fn):
+                break
     for qual, fn in outer_functions(tree):
         counts = {}
         for n in ast.walk(fn):
@@ -970,6 +1076,14 @@ def canonicalise(rel, tree, stats=None):
     return touched
 
 
+def count_loop_functions(tree):
+    """outermost functions written with a `for .. in itertools.count(..)` loop"""
+    return sorted(qual for qual, fn in outer_functions(tree)
+                  if any(isinstance(n, ast.For) and isinstance(n.iter, ast.Call) and
+                         ((isinstance(n.iter.func, ast.Attribute) and n.iter.func.attr == 'count') or (isinstance(n.iter.func, ast.Name) and n.iter.func.id == 'count'))
+                         for n in ast.walk(fn)))
+
+
 def build_reference(sources):
     """{rel: {qual: [[name, sig], ...]}} for every elftools/ module (tools/gen_locals.py)"""
     out = {}
@@ -980,7 +1094,8 @@ def build_reference(sources):
             tree = ast.parse(src)
         except SyntaxError:
             continue
-        normalise(tree)
+        counted = count_loop_functions(tree)
+        normalise(tree, counted)
         fns = {}
         allq = []
         nested = {}
@@ -998,6 +1113,7 @@ def build_reference(sources):
         fns['__params__'] = dict((qual, [x.arg for x in fn.args.args]) for qual, fn in outer_functions(tree))
         fns['__globals__'] = sorted(set(t.id for st in tree.body if isinstance(st, (ast.Assign, ast.AugAssign, ast.AnnAssign))
                                         for t in ast.walk(st) if isinstance(t, ast.Name) and isinstance(t.ctx, ast.Store)))
+        fns['__countloops__'] = counted
         fns['__classattrs__'] = sorted(set('%s.%s' % (c.name, t.id) for c in ast.walk(tree) if isinstance(c, ast.ClassDef) for st in c.body
                                            if isinstance(st, (ast.Assign, ast.AnnAssign)) for t in ast.walk(st)
                                            if isinstance(t, ast.Name) and isinstance(t.ctx, ast.Store)))
